@@ -1,8 +1,9 @@
 (* C02 - the consumer delivers every message once, in offset order, never concurrently.
    Theorem statements only; proofs live in Proofs/ConsumerC02*.v.  Model: Model/Consumer.v (afkak/consumer.py:290-1131),
    specification vocabulary (monitors, honest broker over a log): Model/ConsumerLog.v. *)
-From AV Require Import Base.Util Model.Consumer Model.ConsumerLog Model.ConsumerLogFifo Proofs.ConsumerC02Extract
-  Proofs.ConsumerC02ReqRun Proofs.ConsumerC02PwRun Proofs.ConsumerC02Fifo Proofs.ConsumerC02FifoRun.
+From AV Require Import Base.Util Model.Consumer Model.ConsumerLog Model.ConsumerLogFifo Model.ConsumerLogSeg
+  Proofs.ConsumerC02Extract Proofs.ConsumerC02ReqRun Proofs.ConsumerC02PwRun Proofs.ConsumerC02Fifo Proofs.ConsumerC02FifoRun
+  Proofs.ConsumerC02Log.
 
 (* At most one offset/fetch request is outstanding and at most one refetch timer is armed, at every moment of every run:
    the monitor REQ (Model/ConsumerLog.v: rejects a request sent while one is outstanding, a refetch timer armed while
@@ -38,8 +39,8 @@ Print Assumptions C02_no_overlap.
    NOTHING IS LOST WHILE THE CONSUMER IS ALIVE: in every state that is not stopping / stopped / failed / shutting
    down, what FIFO still expects is precisely what the model holds (rest of the block in progress, then the parked
    reply); in particular with no processor result pending and no reply parked everything extracted has been delivered.
-   Together with C02_extract_log_segment (each extraction = the log segment [fetch offset, new fetch offset)) this is
-   the whole-run form of "no omissions, no repeats, in order". *)
+   (This monitor extracts at the model's own fetch offset; C02_fetch_offsets_contiguous / C02_delivered_is_log_segment
+   below restate it over the offsets the consumer ASKS for and join it to the log.) *)
 Theorem C02_delivered_in_order : forall fuel c maxatt buf evs,
   0 <= c_acn c -> run_fuel_ok fuel c maxatt buf evs = true ->
   exists g, mon_run_s fifo_ev fifo_out [] (run_steps fuel (init c maxatt buf) evs) = Some g
@@ -47,6 +48,38 @@ Theorem C02_delivered_in_order : forall fuel c maxatt buf evs,
                dead2 s = false -> g = queued s ++ pext s.
 Proof. exact fifo_monitor_accepts. Qed.
 Print Assumptions C02_delivered_in_order.
+
+(* Whole-run form, over the offsets the consumer asks for (monitor LOG, Model/ConsumerLogSeg.v): LOG remembers the offset
+   of the last fetch request sent (OFetch off) and where the extraction of the last accepted reply ended; it REJECTS a
+   fetch request for any other offset than that next unread one (a gap or a re-read), and a processor invocation that
+   is not a non-empty prefix of what was extracted - at the offset ASKED FOR - and not yet handed on.  The only events
+   after which the next fetch offset is free (the permitted discontinuities) are an accepted start(), an accepted
+   reply to an offset / offset-fetch request, and an OffsetOutOfRange failure under an auto_offset_reset policy.
+   LOG accepts the run of the model for every configuration and every event list, whatever the broker answers, and
+   nothing extracted since the accepted start() is lost or handed on twice:
+   handed to the processor ++ still queued = extracted before the last resolution ++ extracted since. *)
+Theorem C02_fetch_offsets_contiguous : forall fuel c maxatt buf evs,
+  0 <= c_acn c -> run_fuel_ok fuel c maxatt buf evs = true ->
+  exists gh, mon_run_s log_ev log_out log0 (run_steps fuel (init c maxatt buf) evs) = Some gh
+             /\ l_D gh ++ l_g gh = l_old gh ++ l_E gh.
+Proof. exact log_monitor_accepts. Qed.
+Print Assumptions C02_fetch_offsets_contiguous.
+
+(* ... and against an honest broker (every accepted fetch reply is a contiguous run of the log [L] that starts at or
+   before the first entry >= the offset the request asked for, cut anywhere; an empty reply is honest: liveness of
+   the broker is not assumed) for EVERY log with strictly increasing offsets (gaps allowed): what was extracted since
+   the position was last resolved is exactly the segment of the log from the offset first asked for (l_st) up to the
+   next unread offset.  With the equation above: as long as the position was resolved once since start() (l_old = []),
+   the messages handed to the processor followed by those still queued ARE log[l_st, next unread) - every entry, once,
+   in order. *)
+Theorem C02_delivered_is_log_segment : forall fuel c maxatt buf evs L,
+  0 <= c_acn c -> run_fuel_ok fuel c maxatt buf evs = true -> increasing L ->
+  honest_run L 0 (run_steps fuel (init c maxatt buf) evs) ->
+  exists gh, mon_run_s log_ev log_out log0 (run_steps fuel (init c maxatt buf) evs) = Some gh
+             /\ l_D gh ++ l_g gh = l_old gh ++ l_E gh
+             /\ forall n, l_nx gh = Some n -> l_st gh <= n /\ l_E gh = seg (l_st gh) n L.
+Proof. exact log_segment. Qed.
+Print Assumptions C02_delivered_is_log_segment.
 
 (* The extraction loop against an honest broker (a contiguous run of the log starting at or before the first entry
    >= the fetch offset, cut anywhere): for EVERY log with strictly increasing offsets (gaps allowed) and every start
@@ -115,4 +148,32 @@ Example fifo_rejects_gap : fifo_out [5; 6; 7] (OCallProc [6]) = None.
 Proof. reflexivity. Qed.
 (* the monitor is not trivially accepting: a second fetch request while one is outstanding is rejected *)
 Example req_rejects : mon_run req_ev req_out q0 [(EStart 0, [OFetch 0 4096; OFetch 0 4096])] = None.
+Proof. reflexivity. Qed.
+(* LOG on a run over the log [3;4;7;8;9;15;16] (compaction gaps), start(4), buffer-cut honest replies, the second one
+   a compressed wrapper that starts below the fetch offset: the consumer asks for 4, then 8, then 16; the processor
+   has received [4;7] (block of 2), [8;9] and [15] are queued / being processed; extracted = log[4,16) *)
+Example log_run_ex :
+  let c := mkCfg true 2 false 0 None (-1) in
+  let L := [3; 4; 7; 8; 9; 15; 16] in
+  let evs := [EStart 4; EFetchOk [4; 7] false; EFireRetry; EFetchOk [7; 8; 9; 15] false; EProcFire true; EFireRetry] in
+  let tr := run_steps 40 (init c 0 4096) evs in
+  run_fuel_ok 40 c 0 4096 evs = true /\
+  mon_run_s log_ev log_out log0 tr = Some (mkL 16 (Some 16) 4 [4; 7; 8; 9; 15] [] [15] [4; 7; 8; 9]) /\
+  seg 4 16 L = [4; 7; 8; 9; 15].
+Proof. vm_compute. repeat split; reflexivity. Qed.
+Example log_run_ex_honest :
+  let c := mkCfg true 2 false 0 None (-1) in
+  let evs := [EStart 4; EFetchOk [4; 7] false; EFireRetry; EFetchOk [7; 8; 9; 15] false] in
+  honest_run [3; 4; 7; 8; 9; 15; 16] 0 (run_steps 40 (init c 0 4096) evs).
+Proof.
+  cbn [run_steps]. vm_compute step. cbn [honest_run last_fetch fold_left]. repeat split.
+  - intros _. exists [3], [8; 9; 15; 16]. split; [reflexivity | repeat constructor].
+  - intros _. exists [3; 4], [16]. split; [reflexivity | repeat constructor].
+Qed.
+(* LOG is not trivially accepting: a fetch request that skips an offset, or re-reads one, is rejected *)
+Example log_rejects_gap : log_out (mkL 4 (Some 8) 4 [4; 7] [] [] [4; 7]) (OFetch 9 4096) = None.
+Proof. reflexivity. Qed.
+Example log_rejects_reread : log_out (mkL 4 (Some 8) 4 [4; 7] [] [] [4; 7]) (OFetch 4 4096) = None.
+Proof. reflexivity. Qed.
+Example log_rejects_unfetched : log_out (mkL 4 (Some 8) 4 [4; 7] [] [7] [4]) (OCallProc [8]) = None.
 Proof. reflexivity. Qed.
